@@ -151,10 +151,62 @@ def check_shape(shape, mode, res, rng):
         res['violations'].append({'class': 'shape', 'shape': repr(shape), 'mode': mode, 'what': bad[:3]})
 
 
+def scan_links(res):
+    """frame fact used by contracts/C18_stack.py (given= of the deferred callbacks): the layer links __upper / __lower are
+    assigned only in YowLayer.setLayers (and the class-level None defaults), and setLayers is called only by YowLayer.__init__
+    (None, None), the stack constructor and YowStack.addPostConstructLayer."""
+    import ast
+    repo = os.environ.get('PYVC_REPO', '/repo')
+    writes, callers = set(), set()
+    for root, _, files in os.walk(os.path.join(repo, 'yowsup')):
+        for fn in files:
+            if not fn.endswith('.py'):
+                continue
+            p = os.path.join(root, fn)
+            rel = os.path.relpath(p, repo)
+            try:
+                tree = ast.parse(open(p, encoding='utf-8').read())
+            except Exception:
+                continue
+            for cls in [n for n in ast.walk(tree) if isinstance(n, ast.ClassDef)]:
+                for f in [n for n in cls.body if isinstance(n, ast.FunctionDef)]:
+                    where = '%s:%s.%s' % (rel, cls.name, f.name)
+                    for n in ast.walk(f):
+                        tg = []
+                        if isinstance(n, ast.Assign):
+                            tg = n.targets
+                        elif isinstance(n, (ast.AugAssign, ast.AnnAssign)):
+                            tg = [n.target]
+                        elif isinstance(n, ast.Delete):
+                            tg = n.targets
+                        for t in tg:
+                            for a in ast.walk(t):
+                                if isinstance(a, ast.Attribute) and (a.attr in ('_YowLayer__upper', '_YowLayer__lower') or
+                                                                     (cls.name == 'YowLayer' and a.attr in ('__upper', '__lower'))):
+                                    writes.add(where)
+                        if isinstance(n, ast.Call) and isinstance(n.func, ast.Name) and n.func.id in ('setattr', 'delattr'):
+                            if any(isinstance(x, ast.Constant) and isinstance(x.value, str) and x.value.endswith(('__upper', '__lower')) for x in n.args):
+                                writes.add(where)
+                        if isinstance(n, ast.Attribute) and n.attr == 'setLayers':
+                            callers.add(where)
+    sec = res['sections'].setdefault('link-frame-scan', {'n': 2, 'bad': 0})
+    res['evaluations'] += 2
+    want_w = {'yowsup/layers/__init__.py:YowLayer.setLayers'}
+    want_c = {'yowsup/layers/__init__.py:YowLayer.__init__', 'yowsup/stacks/yowstack.py:YowStack._construct',
+              'yowsup/stacks/yowstack.py:YowStack.addPostConstructLayer'}
+    if writes != want_w:
+        sec['bad'] += 1
+        res['violations'].append({'class': 'link-frame', 'what': ['layer links written in %r (expected only %r)' % (sorted(writes), sorted(want_w))]})
+    if not callers <= want_c:
+        sec['bad'] += 1
+        res['violations'].append({'class': 'link-frame', 'what': ['setLayers referenced in %r (expected within %r)' % (sorted(callers), sorted(want_c))]})
+
+
 def run(tier, seed, out):
     rng = random.Random(seed)
     res = {'evaluations': 0, 'distinct': 0, 'violations': [], 'samples': [], 'sections': {}}
     t0 = time.time()
+    scan_links(res)
     names = ['A', 'B', 'C', 'D', 'E', 'F', 'G', 'H', 'I', 'J', 'K', 'L', 'M', 'N', 'O', 'P']
     shapes = []
     maxd = 3 if tier == 'quick' else 4
